@@ -223,7 +223,7 @@ impl<'w> FnTr<'w> {
             }
             if name == "self" { return Err(self.err(e, "`self` used as a whole")); }
             if let Some(c) = self.world.consts.get(&(None, name.clone())).cloned() {
-                if !(self.use_leafs.contains(name) || self.use_glob || c.module == self.target.module) {
+                if !(self.use_leafs.contains(name) || self.use_glob || c.module == self.target.module || c.file == self.target.file) {
                     return Err(self.err(e, "constant is registered but not imported by a `use` in this file"));
                 }
                 return Ok(self.const_ref(&c));
@@ -238,6 +238,17 @@ impl<'w> FnTr<'w> {
                 return Err(self.err(e, "unknown associated constant (not registered for translation)"));
             }
             if let Some(c) = self.world.consts.get(&(Some(segs[0].clone()), segs[1].clone())).cloned() { return Ok(self.const_ref(&c)); }
+            // opaque associated constant of another type (`Zobrist::BLACK_TO_MOVE_HASH`): a parameter
+            if let What::Fn { opaque, .. } = &self.target.what {
+                if let Some(o) = opaque.iter().find(|o| o.recv == segs[0] && o.method == segs[1]) {
+                    if !(self.use_leafs.contains(&segs[0]) || self.use_glob) { return Err(self.err(e, "the type of this opaque associated constant is not imported by a `use` in this file")); }
+                    let ty: syn::Type = syn::parse_str(o.ret).map_err(|_| self.err(e, "bad opaque type in the table"))?;
+                    let ty = self.resolve_type(&ty)?;
+                    let name = format!("{}_{}", segs[0], segs[1]);
+                    let n = self.lparam(&name, ty.clone(), Origin::ParamMethod(usize::MAX, name.clone()), (usize::MAX - 1, 1, self.lparams.len()))?;
+                    return Ok(Ex::atom(n, ty));
+                }
+            }
             if let Some(r) = self.enum_variant(e, Some(&segs[0]), &segs[1])? { return Ok(r); }
         }
         Err(self.err(e, "unsupported path"))
@@ -309,6 +320,11 @@ impl<'w> FnTr<'w> {
         for _ in segs.len()..4 { key *= 100; }
         if let (RTy::VecFn(el), What::Fn { vec_list: true, .. }) = (&ty, &self.target.what) { ty = RTy::VecList(el.clone()); }
         if let RTy::Flat(n) = ty { return Err(self.err(node, &format!("value of struct type `{}` used as a whole", n))); }
+        // a field that is mutably borrowed into a local must not be accessed directly (its value lives in the local)
+        if var == "self" {
+            let top = lean_ident(segs[0]);
+            if self.writebacks.iter().any(|(_, _, tf, _)| tf.contains(&top)) { return Err(self.err(node, &format!("`self.{}` is accessed while it is mutably borrowed into a local", segs[0]))); }
+        }
         let flat_name = field.replace('.', "_");
         let pname = if var == "self" { flat_name } else { format!("{}_{}", var, flat_name) };
         let n = self.lparam(&pname, ty.clone(), Origin::ParamField(idx, field.to_string()), (idx, 0, key))?;
